@@ -767,9 +767,13 @@ def graph_case(n, edges, place, diamond, rng, twin=False):
         P = place[a]
         down = sorted(set(b for (x, b) in edges if x == a and place[b] >= P))
         up = sorted(set(b for (x, b) in edges if x == a and place[b] < P))
-        add_action(P, a, new_cp(P, [cmp_(P, b) for b in down]) if down else None)
+        own_cp = new_cp(P, [cmp_(P, b) for b in down]) if down else None
+        add_action(P, a, own_cp)
         for Q in sorted(set(place[b] for b in up)):
-            conns[(Q, P)].append({"to": ("action", a), "add": new_cp(Q, [cmp_(Q, b) for b in up if place[b] == Q]), "render_to": None})
+            # the connection goes onto the action, or -- when the action has a checkpoint of its own -- onto that
+            # checkpoint (a connection onto an imported checkpoint: its holders get the added dependency)
+            to = own_cp if (own_cp is not None and rng.random() < 0.5) else ("action", a)
+            conns[(Q, P)].append({"to": to, "add": new_cp(Q, [cmp_(Q, b) for b in up if place[b] == Q]), "render_to": None})
     for loc in (0, 1, 2):
         if not sch[loc]["actions"]:
             add_action(loc, 99, None)
